@@ -20,7 +20,8 @@ RULE = ("For Hypothesis-drawn configurations and k, O = complete checkpoint afte
         "folder left by death j with that file cut to each prefix (every byte for small files / in the thorough tier, else "
         "128 evenly spaced offsets plus line boundaries); (3) SQLite: process death at every line event, and an exception "
         "raised at every line event of its save (sys.settrace). Oracle: a later restore/load raises, or equals O or N exactly; "
-        "for an injected exception in SQLite the load must succeed and equal O (N once committed). Non-trivial = the fault lies "
+        "for SQLite (transactional) with a previous checkpoint the load must succeed and equal O (N once committed), after an "
+        "injected exception and after a process death alike. Non-trivial = the fault lies "
         "strictly after the first write and before the last; distinct = (config, k, fault point).")
 ASSUMPTIONS = ["crash = process death at Python statement boundaries of the save function plus synthetic byte truncations of the "
                "file being written; torn sectors / reordered writes below the file-system API are outside the model",
@@ -299,9 +300,10 @@ def check_sqlite(ctx: Ctx, case):
                     if v == "hybrid":
                         ctx.fail("C06/sqlite-hybrid", f"{mode} at line event {j}: {info}", sub, one)
                         return
-                    if mode == "exception" and not done and previous and v != "O" and v != "N":
-                        ctx.fail("C06/sqlite-failed-save-loses-previous", f"an exception raised at line event {j} of the SQLite "
-                                 f"save (rolled back) leaves the previous checkpoint unloadable: {info}", sub, one)
+                    if not done and previous and v != "O" and v != "N":
+                        how = "an exception raised" if mode == "exception" else "a process death"
+                        ctx.fail("C06/sqlite-failed-save-loses-previous", f"{how} at line event {j} of the SQLite save leaves the "
+                                 f"previous checkpoint unloadable: {info}", sub, one)
                         return
                     if done:
                         if v != "N":
